@@ -27,6 +27,9 @@ type edit struct {
 	depth      int
 	close      bool
 	seq        int
+	// argStart/argEnd: when argEnd > argStart the source text in that range is appended to text, followed by tail
+	argStart, argEnd int
+	tail             string
 }
 
 type site struct {
@@ -70,13 +73,13 @@ func (r *fileRewriter) off(p token.Pos) int { return r.tf.Offset(p) }
 
 func (r *fileRewriter) insert(p token.Pos, text string, close bool) {
 	r.seq++
-	r.edits = append(r.edits, edit{r.off(p), r.off(p), text, len(r.stack), close, r.seq})
+	r.edits = append(r.edits, edit{start: r.off(p), end: r.off(p), text: text, depth: len(r.stack), close: close, seq: r.seq})
 	r.changed = true
 }
 
 func (r *fileRewriter) replace(from, to token.Pos, text string) {
 	r.seq++
-	r.edits = append(r.edits, edit{r.off(from), r.off(to), text, len(r.stack), false, r.seq})
+	r.edits = append(r.edits, edit{start: r.off(from), end: r.off(to), text: text, depth: len(r.stack), seq: r.seq})
 	r.changed = true
 }
 
@@ -110,6 +113,28 @@ func isChan(t types.Type) bool {
 
 // enclosingStmtPos returns the position of the innermost statement that is a direct element of a
 // statement list and encloses the current node without crossing a function literal.
+// enclosingStmtEnd is enclosingStmtPos for the end of that statement.
+func (r *fileRewriter) enclosingStmtEnd() (token.Pos, bool) {
+	for i := len(r.stack) - 1; i > 0; i-- {
+		n := r.stack[i]
+		if _, ok := n.(*ast.FuncLit); ok {
+			return token.NoPos, false
+		}
+		st, ok := n.(ast.Stmt)
+		if !ok {
+			continue
+		}
+		if _, ok := r.stack[i-1].(*ast.BlockStmt); ok {
+			switch st.(type) {
+			case *ast.AssignStmt, *ast.ExprStmt:
+				return st.End(), true
+			}
+			return token.NoPos, false
+		}
+	}
+	return token.NoPos, false
+}
+
 func (r *fileRewriter) enclosingStmtPos() (token.Pos, bool) {
 	for i := len(r.stack) - 1; i > 0; i-- {
 		n := r.stack[i]
@@ -212,6 +237,16 @@ func (r *fileRewriter) visitCall(call *ast.CallExpr) {
 		return
 	}
 	full := fn.FullName()
+	if strings.HasSuffix(full, "/analysis/dataflow.RunIntraProcedural") && len(call.Args) >= 1 {
+		// observation point after every (on-demand or eager) construction of a function summary
+		if end, ok := r.enclosingStmtEnd(); ok {
+			n := r.site("hook-after-summary", call.Pos())
+			r.seq++
+			r.edits = append(r.edits, edit{start: r.off(end), end: r.off(end), text: fmt.Sprintf("; simrt.Hook(%d, ", n),
+				depth: len(r.stack), close: true, seq: r.seq, argStart: r.off(call.Args[0].Pos()), argEnd: r.off(call.Args[0].End()), tail: ")"})
+			r.changed = true
+		}
+	}
 	if unsupportedFuncs[full] {
 		r.unsupported(call, "call to "+full+" cannot be modelled")
 		return
@@ -416,8 +451,8 @@ func (r *fileRewriter) walk(n ast.Node) {
 func (r *fileRewriter) apply(src []byte, simrtPath string) []byte {
 	// import and guards
 	r.seq++
-	r.edits = append(r.edits, edit{r.off(r.file.Name.End()), r.off(r.file.Name.End()),
-		fmt.Sprintf("; import simrt %q", simrtPath), 0, false, 0})
+	r.edits = append(r.edits, edit{start: r.off(r.file.Name.End()), end: r.off(r.file.Name.End()),
+		text: fmt.Sprintf("; import simrt %q", simrtPath)})
 	sort.SliceStable(r.edits, func(i, j int) bool {
 		a, b := r.edits[i], r.edits[j]
 		if a.start != b.start {
@@ -447,6 +482,10 @@ func (r *fileRewriter) apply(src []byte, simrtPath string) []byte {
 		}
 		out = append(out, src[pos:e.start]...)
 		out = append(out, e.text...)
+		if e.argEnd > e.argStart {
+			out = append(out, src[e.argStart:e.argEnd]...)
+			out = append(out, e.tail...)
+		}
 		pos = e.end
 	}
 	out = append(out, src[pos:]...)
